@@ -47,8 +47,10 @@ CHECKS.update({
          "Coq proof (sound/complete per lookup) + refutation witness; lock-step correspondence on exhaustive query batches; brute-force oracle", "6 C10"),
  "C19": ("proof", "Theorems for every dimension: each VectorT operator (as the algorithm of the header) equals its component-wise definition; integer algebra over Z (order, dot, cross incl. Lagrange identity, lattice laws); "
          "unsigned = mod 2^32; geometry queries = defining sums; opposite normals for triangles and planar convex faces. Refuted with witnesses: l1_norm (known finding D12), opposite normals on planar non-convex faces. "
-         "Floating point is checked against the exact rational model under explicit rounding bounds, not proved.",
-         "Coq proof over Z/Q models of the header algorithms; differential run incl. exact-rational error bounds; defining-formula oracle", "6 C19"),
+         "Floating point: the same algorithms instantiated with Flocq binary64/binary32 in the C++ evaluation order agree with the library BIT FOR BIT on every generated input (special values included); proved on that model: "
+         "component-wise operations correctly rounded, exact comparisons/min/max, forward error bounds for dot, sqrnorm, norm, normalized, barycenters, exactness on integer-valued doubles (these 20 theorems depend on the standard "
+         "library's real-number axioms, named in the evidence).",
+         "Coq proof over Z/Q and Flocq models of the header algorithms; differential run incl. bit-exact float comparison and exact-rational error bounds; defining-formula oracle", "6 C19"),
  "C20": ("proof", "PARTIAL: proved - every interleaving of read-only steps yields per thread the sequential outputs and leaves the state unchanged; the table of const members regenerated from the clang AST on every run has no "
          "own writes, mutable members (except the registry's tracker map, as the property excludes), const_casts or local statics. Observed only (ThreadSanitizer, 2..16 threads): absence of data races in the binary.",
          "Coq proof (schedule theorem + regenerated const-write table decided by computation); TSan stress run", "6 C20"),
